@@ -1,6 +1,6 @@
 use super::{Vm, VmFileId};
 use crate::{
-  cache::InlineCache,
+  cache::{CacheIdEmitter, InlineCache},
   compiler::{Compiler, Parser, Resolver},
   source::Source,
   FeResult,
@@ -57,6 +57,15 @@ impl Vm {
     let alloc = Bump::new();
     let compiler = Compiler::new(module, &alloc, &line_offsets, file_id, repl, self, gc);
 
+    // a module that is compiled again (repl) keeps the slots of its earlier call sites
+    let compiler = match self.inline_cache.get(module.id()) {
+      Some(cache) => compiler.with_cache_id_emitter(CacheIdEmitter::starting_at(
+        cache.property_slots(),
+        cache.invoke_slots(),
+      )),
+      None => compiler,
+    };
+
     #[cfg(feature = "debug")]
     let compiler = compiler.with_io(self.io.clone());
 
@@ -64,15 +73,16 @@ impl Vm {
     self.gc.replace(gc);
 
     result.map(|fun| {
-      let cache = InlineCache::new(
-        cache_id_emitter.property_count(),
-        cache_id_emitter.invoke_count(),
-      );
-
       if module.id() < self.inline_cache.len() {
-        self.inline_cache[module.id()] = cache;
+        self.inline_cache[module.id()].grow(
+          cache_id_emitter.property_count(),
+          cache_id_emitter.invoke_count(),
+        );
       } else {
-        self.inline_cache.push(cache);
+        self.inline_cache.push(InlineCache::new(
+          cache_id_emitter.property_count(),
+          cache_id_emitter.invoke_count(),
+        ));
       }
       self.manage_obj(fun)
     })
